@@ -53,7 +53,7 @@ def customs_everywhere(rnd, m):
 def variants(rnd, b, nvar):
     """yield (kind, bytes)"""
     out = []
-    kinds = ['pad-max', 'pad-random', 'custom', 'dataflag', 'emptysec', 'pad-one', 'all', 'locals']
+    kinds = ['pad-max', 'pad-random', 'custom', 'dataflag', 'emptysec', 'pad-one', 'all', 'locals', 'namesec']
     for i in range(nvar):
         kind = kinds[i % len(kinds)] if i < len(kinds) else rnd.choice(kinds)
         m = wasm.decode(b)
@@ -69,6 +69,14 @@ def variants(rnd, b, nvar):
             sub = 'pad-one:' + f
         elif kind == 'custom':
             customs_everywhere(rnd, m)
+        elif kind == 'namesec':
+            # THE name section, well-formed but naming nothing (a module-name subsection and an empty function-names subsection), at a
+            # section boundary of its own choosing - also BETWEEN standard sections: with -g it is parsed, and must change nothing
+            if any(c[1] == 'name' for c in m.customs):
+                continue
+            sid = rnd.choice([3, 4, 5, 6, 7, 8, 9, 12, 10, 11, 11, 10])
+            m.customs = list(m.customs) + [(sid, 'name', b'\x00\x02\x01m' + b'\x01\x01\x00')]
+            sub = 'namesec:after%d' % sid
         elif kind == 'locals':
             enc = wasm.Enc(None, locals_rnd=rnd)   # equivalent local declaration vectors: split groups, zero-count groups anywhere
         elif kind == 'dataflag':
@@ -165,7 +173,7 @@ def main(chk):
         if ti == 5:
             tm.force_empty_sections |= {9, 11}
         bases.append(('tiny%d' % ti, tm.encode(), None))
-    nvar = 8 if quick else 18
+    nvar = 9 if quick else 20
     root = env.subdir('c08')
 
     def one(item):
@@ -199,7 +207,15 @@ def main(chk):
                 notes.append(('v8-reject', '%s %s: %s' % (tag, kind, msg[:200])))
                 continue
             vd = os.path.join(d, 'v%d' % vi)
-            tv, vfiles = translate_files(w2c2, vb, vd, 'm', opts)
+            vopts, vbase_defs = opts, base_defs
+            if kind.startswith('namesec') and '-g' not in opts:
+                # the name section only matters with -g: compare against the base translated with -g as well
+                vopts = opts + ['-g']
+                tg, gfiles = translate_files(w2c2, b, os.path.join(d, 'base-g'), 'm', vopts)
+                if tg.rc != 0:
+                    continue
+                vbase_defs = definitions(gfiles)
+            tv, vfiles = translate_files(w2c2, vb, vd, 'm', vopts)
             stats['variants'] += 1
             stats['kind_' + kind.split(':')[0]] += 1
             wf = {'base.wasm': b, 'variant.wasm': vb, 'kind.txt': kind, 'stderr.txt': tv.err[-2000:], 'opts.txt': ' '.join(opts)}
@@ -207,9 +223,9 @@ def main(chk):
                 res.append(('C08:reject:%s' % kind, '%s variant %s (options %s) rejected by the translator (rc %s): %s' % (tag, kind, opts, tv.rc, tv.err[-300:]), wf, vb))
             else:
                 vdefs = definitions(vfiles)
-                if vdefs != base_defs:
-                    only_b = list((base_defs - vdefs).elements())[:2]
-                    only_v = list((vdefs - base_defs).elements())[:2]
+                if vdefs != vbase_defs:
+                    only_b = list((vbase_defs - vdefs).elements())[:2]
+                    only_v = list((vdefs - vbase_defs).elements())[:2]
                     res.append(('C08:defs-differ:%s' % kind, '%s variant %s (options %s): C definitions differ. base only: %s | variant only: %s' % (
                         tag, kind, ' '.join(opts), [x[:200] for x in only_b], [x[:200] for x in only_v]), wf, vb))
                 else:
